@@ -453,7 +453,10 @@ def side_addressing(repo: Repo) -> RuleRun:
         r.check(ok, side_init, f"Side({side!r}) -> corners {got}", f"Side({side!r}) takes corners {got}; side '{side}' has corners {sorted(hexa.SIDE_CORNERS[side])}", side_init.node, key=f"Side:{side}")
     wrong = Obj("side", cls=repo.cls("items.side.Side"))
     res = _run(evaluator(side_init), side_init, [wrong, "top", [Sym(f"c{i}") for i in range(7)]])
-    r.check(isinstance(res, tuple) and res[0] == "raised", side_init, "7 vertices refused", "Side() accepts a vertex list that does not have 8 entries", side_init.node, key="Side:len")
+    r.check(isinstance(res, tuple) and res[0] == "raised" and res[1].endswith("SideCreationError"), side_init, "7 vertices refused", f"Side() with 7 vertices: {res} - a vertex list that does not have 8 entries must be rejected with SideCreationError", side_init.node, key="Side:len")
+    wrong9 = Obj("side", cls=repo.cls("items.side.Side"))
+    res = _run(evaluator(side_init), side_init, [wrong9, "top", [Sym(f"c{i}") for i in range(9)]])
+    r.check(isinstance(res, tuple) and res[0] == "raised" and res[1].endswith("SideCreationError"), side_init, "9 vertices refused", f"Side() with 9 vertices: {res!r} - must be rejected with SideCreationError", side_init.node, key="Side:len9")
     return r
 
 
